@@ -145,13 +145,14 @@ func finishSignature(signature, signedinfo *etree.Element, hash crypto.Hash, pri
 		return err
 	}
 	// build the rest of the signature element
-	if _, ok := privKey.Public().(*ecdsa.PublicKey); ok {
-		// reformat the signature without ASN.1 structure
+	if pub, ok := privKey.Public().(*ecdsa.PublicKey); ok {
+		// reformat the signature without ASN.1 structure, each number padded
+		// to the size of the curve order
 		esig, err := x509tools.UnmarshalEcdsaSignature(sig)
 		if err != nil {
 			return err
 		}
-		sig = esig.Pack()
+		sig = esig.PackCurve(pub.Curve)
 	}
 	signature.CreateElement("SignatureValue").SetText(base64.StdEncoding.EncodeToString(sig))
 	keyinfo := etree.NewElement("KeyInfo")
